@@ -30,11 +30,16 @@ def context_keys_only_in_persist(chk):
     keys = ['last_update_time', 'server_dictated_poll_interval', 'consecutive_failed_update_checks']
     ex, res = callers.explore_puc(chk, 'tail', 1, 1, 1)
     D = Decide(chk, ex, o, cross=False)
+    o2 = chk.ob('check-body-frame', 'perform_update_check itself never touches the failure counter or the last-contact time (its caller assigns them once, after the outcome is known): whatever is persisted in the middle of a check - a changed poll interval is - carries the bookkeeping of the last completed check, never a mixture')
+    D2 = Decide(chk, ex, o2, cross=False)
+    c0_, l0_ = sutmon.ctx_terms(ex, State())
     n = 0
     for st in res:
         if st.status != 'done':
             D.no_bad_status([st])
             continue
+        c1_, l1_ = sutmon.ctx_terms(ex, st)
+        D2.require(st, z3.And(c1_.t == c0_.t, sutmon.opt_pct_eq(ex, st, l1_, l0_)), 'failure counter and last-contact time untouched by the body of the check')
         for e in st.trace:
             if e.kind == 'env' and 'Storage>::' in e.name and e.name.split('::')[-1] in ('set_int', 'set_string', 'set_bool', 'remove'):
                 n += 1
@@ -46,6 +51,9 @@ def context_keys_only_in_persist(chk):
     f = D.done()
     if f and f[0] == 'violated':
         o.key = o.name
+    f2 = D2.done()
+    if f2 and f2[0] == 'violated':
+        o2.key = o2.name
     chk.absorb(ex)
 
 
